@@ -68,6 +68,9 @@ TreeClasses(ph) ==
                MK("Lengthen", << 0, 1 >>, 2) } ELSE {})
   \cup (IF ph = "preprocessed gates"
         THEN { MK("Shorten", << 0, 2 >>, 1), MPath("Clear", << 0, 0 >>), MK("Lengthen", << 0, 3 >>, 5) } ELSE {})
+  \cup (IF Nested(ph)
+        THEN { [m |-> "ShortenEach", path |-> << >>, cnt |-> 1], [m |-> "LengthenEach", path |-> << >>, cnt |-> 1],
+               [m |-> "ClearEach", path |-> << >>] } ELSE {})
   \cup (IF HasBool(ph) THEN { [m |-> "SetByte", path |-> << 0, 0 >>, val |-> 2] } ELSE {})
   \cup (IF IsBcast(ph) THEN { [m |-> "ToSomeAny"], [m |-> "ToNoneAny"] } ELSE {})
   \cup (IF Optional(ph) THEN { [m |-> "ToSomeAny"], [m |-> "ToNoneAny"], [m |-> "ToNoneAll"] } ELSE {})
@@ -82,6 +85,7 @@ Malformed(cfg, c) ==
 \* ---------------------------------------------------------------------------
 \* C03: authenticated fields of the online phase
 Bits == {0, 77, 127}
+Pairs(S) == { p \in S \X S : p[1] < p[2] }
 Online(cfg, c) ==
   LET n == cfg.n
       circ == cfg.circ
@@ -98,6 +102,29 @@ Online(cfg, c) ==
   UNION { UNION { { Scn("online", c, << Dev(c, q, "output wire shares", 0, MPath("Flip", << r, 0 >>)) >>, "victims", {q}, "output share bit") }
                   \cup { Scn("online", c, << Dev(c, q, "output wire shares", 0, MBit(<< r, 1 >>, b)) >>, "victims", {q}, "output share MAC") : b \in Bits } :
                   r \in UniqueOutRegs(circ) } : q \in { p \in Others : InPo(cfg, p) } }
+  \cup
+  \* the same alteration at TWO positions of one message (aggregated checks must not let them cancel)
+  UNION { UNION { { Scn("online", c, << Dev(c, q, "wire shares", 0, MPath("Flip", << pr[1], 0 >>)), Dev(c, q, "wire shares", 0, MPath("Flip", << pr[2], 0 >>)) >>,
+                "victims", {q}, "two input share bits"),
+            Scn("online", c, << Dev(c, q, "wire shares", 0, MBit(<< pr[1], 1 >>, 77)), Dev(c, q, "wire shares", 0, MBit(<< pr[2], 1 >>, 77)) >>,
+                "victims", {q}, "two input share MACs") } :
+          pr \in Pairs(InputRegsOf(circ, q)) } : q \in Others }
+  \cup
+  UNION { { Scn("online", c, << Dev(c, q, "output wire shares", 0, MPath("Flip", << pr[1], 0 >>)), Dev(c, q, "output wire shares", 0, MPath("Flip", << pr[2], 0 >>)) >>,
+                "victims", {q}, "two output share bits"),
+            Scn("online", c, << Dev(c, q, "output wire shares", 0, MBit(<< pr[1], 1 >>, 77)), Dev(c, q, "output wire shares", 0, MBit(<< pr[2], 1 >>, 77)) >>,
+                "victims", {q}, "two output share MACs") } :
+          q \in { p \in Others : InPo(cfg, p) }, pr \in Pairs(UniqueOutRegs(circ)) }
+  \cup
+  (IF c = cfg.pe THEN
+     UNION { { Scn("online", c, << Dev(c, q, "lambda", 0, MPath("Flip", << pr[1], 0 >>)), Dev(c, q, "lambda", 0, MPath("Flip", << pr[2], 0 >>)) >>,
+                   "victims", {q}, "two revealed values"),
+               Scn("online", c, << Dev(c, q, "lambda", 0, MBit(<< pr[1], 1 >>, 77)), Dev(c, q, "lambda", 0, MBit(<< pr[2], 1 >>, 77)) >>,
+                   "victims", {q}, "two revealed labels") } :
+             q \in { p \in Others : InPo(cfg, p) }, pr \in Pairs(UniqueOutRegs(circ)) }
+   ELSE
+     { Scn("online", c, << Dev(c, cfg.pe, "labels", 0, MBit(<< pr[1] >>, 77)), Dev(c, cfg.pe, "labels", 0, MBit(<< pr[2] >>, 77)) >>,
+           "victims", {cfg.pe}, "two input labels") : pr \in Pairs(AllInputRegs(circ)) })
   \cup
   \* a garbler alters an input label, a row ciphertext (same bit in all four rows
   \* of one gate, so that the row the evaluator opens is hit) or the share it garbles
